@@ -208,6 +208,20 @@ def S_assert_different_x(e, I, O):
     """private helper (hook H11), soundness: an accepted pair of well-formed x coordinates represents different
     residues (the helper is documented as sound but incomplete)"""
     Pt, Qt = pts(e, I)
+    # definitional hints (fresh variables defined by linear equations, always satisfiable): the integer difference
+    # D of the two limb sums and the quotient T of "base^i -> base^i mod p" in the native linear combination:
+    #   sum base^i d_i  =  sum (base^i mod p) d_i  +  p * T      (ground identity, t_i = (base^i - base^i mod p) / p)
+    # Naming T spares the solver the search for seven ~140-bit multipliers (same lesson as the Montgomery quotient).
+    if hasattr(e, "s"):
+        base = 1 << int(e.extra["log2_base"])
+        terms = [(base ** i, a, b) for i, (a, b) in enumerate(zip(Pt[0], Qt[0]))]
+        D = e.fresh("hintD")
+        T = e.fresh("hintT")
+        e.lines.append(f"(assert (= {D} (+ 0 " + " ".join(f"(* {w} (- {A(a)} {A(b)}))" for w, a, b in terms) + ")))")
+        e.lines.append(f"(assert (= {T} (+ 0 " + " ".join(f"(* {(w - w % P) // P} (- {A(a)} {A(b)}))" for w, a, b in terms) + ")))")
+        # D - (res px - res qx) is a multiple of m by the definition of the residues: name the multiple
+        K = e.fresh("hintK")
+        e.lines.append(f"(assert (= {D} (+ (- {A(res(e, Pt[0]))} {A(res(e, Qt[0]))}) (* {M(e)} {K}))))")
     return ne(res(e, Pt[0]), res(e, Qt[0]))
 
 
@@ -338,6 +352,7 @@ def check(run):
     ents = family(t, core.seed())
     ffecc.RUN = run
     ffecc.install()
+    CUT_TIMEOUT[0] = 60 if t == "quick" else 300
     run.assumptions += [
         "fecc: constraint structure extracted at one admissible witness per (curve, operation); C09 assumed, spot-checked on the alternative inputs (k*G incl. the identity, P = Q, P = -Q)",
         "fecc: conditional foreign-field gate groups are decided per reachable value of their condition cell (solver: the system confines it to {0, 1, -1}); for each value the five-link foreign-field chain of C05 is run on the substituted group; the comparison of the lifted polynomial with the textbook identity is a ground coefficient comparison modulo the emulated modulus",
